@@ -944,7 +944,14 @@ impl<'a> Exec<'a> {
         self.p.forks += 1;
         self.sig.b(0x31);
         let m = &self.main;
-        let (lock, mut div, saved, mut p1, mut p2) = api(L::scanner_copy, || (*m, *m, *m, *m, *m))?;
+        // both ways of copying: bitwise `Copy` and an explicit `Clone::clone` (the lockstep copy and
+        // one of the probes are clones)
+        #[allow(clippy::clone_on_copy)]
+        let (lock, mut div, saved, mut p1, mut p2) = api(L::scanner_copy, || {
+            let cl = Scn { cc: m.cc.clone(), pn: m.pn.clone(), po: m.po.clone() };
+            let cl2 = Scn { cc: Clone::clone(&m.cc), pn: Clone::clone(&m.pn), po: Clone::clone(&m.po) };
+            (cl, *m, *m, *m, cl2)
+        })?;
         let eq = api(L::scanner_eq, || lock.cc == m.cc && lock.pn == m.pn && lock.po == m.po)?;
         self.sink.check(R::C17_copy, eq, || "a fresh copy does not compare equal to the original".into());
         // Independence of copies, behaviourally: probe copy p1 now; then drive the divergent copy
